@@ -214,4 +214,5 @@ def main (args : List String) : IO Unit :=
   | ["utils"] => do utils; utils2
   | ["io"] => ioProbes
   | ["base"] => baseProbes
+  | ["chain"] => pure ()      -- (abstract steps: no probe lattice; the C06 correspondence and oracle search the implementation)
   | _ => IO.println "usage: GenEval kernels|coords"
